@@ -29,7 +29,7 @@ def oracle(signedchar):
         'short': (3, 2, True), 'ushort': (3, 2, False), 'int': (4, 4, True), 'uint': (4, 4, False),
         'long': (5, 8, True), 'ulong': (5, 8, False), 'llong': (6, 8, True), 'ullong': (6, 8, False),
     }
-ENUM_BASES = {'enum_uint': 'uint', 'enum_int': 'int', 'enum_long': 'long', 'enum_ulong': 'ulong', 'enum_uchar': 'uchar', 'enum_short': 'short', 'enum_ullong': 'ullong'}
+ENUM_BASES = {'enum_uint': 'uint', 'enum_int': 'int', 'enum_long': 'long', 'enum_ulong': 'ulong', 'enum_uchar': 'uchar', 'enum_short': 'short', 'enum_ullong': 'ullong', 'enum_llong': 'llong'}
 FLOATS = {'float': 1, 'double': 2, 'ldouble': 3}
 
 
@@ -629,7 +629,7 @@ def rule_conditional(chk, prog, tier):
         def condexpr(i2, a, e):
             depth['n'] += 1
             try:
-                if depth['n'] > 1: return cur['r']
+                if depth['n'] >= 1: return cur['r']          # the nested call for the third operand (the outer call is made directly by the rule)
                 return i2.call(fn, a)
             finally:
                 depth['n'] -= 1
@@ -655,6 +655,19 @@ def rule_conditional(chk, prog, tier):
                     out[(ln, rn)] = tname(it.load(e.obj, ('type',)))
                 except Terminal as t:
                     out[(ln, rn)] = 'error' if t.what == 'error' else 'terminal:' + t.what
+        # the type of the result does not depend on whether the condition is a constant (the folded form is the selected operand CONVERTED to that type)
+        outc = {}
+        for cv in (0, 1):
+            cc = w.mkexpr('EXPRCONST', u['int'], None, u__constant__u=cv)
+            for ln, le, ld in ops:
+                for rn, re_, rd in ops:
+                    if isinstance(out[(ln, rn)], str) and out[(ln, rn)].startswith(('error', 'terminal')): continue
+                    cur.update({'c': cc, 'l': le, 'r': re_})
+                    try:
+                        e = it.call(fn, [Ptr(Obj('scope', 'heap'), ())])
+                        outc[(cv, ln, rn)] = tname(it.load(e.obj, ('type',)))
+                    except Terminal as t:
+                        outc[(cv, ln, rn)] = 'error' if t.what == 'error' else 'terminal:' + t.what
         # constant conditions
         sel = {}
         for cv in (0, 1, 7):
@@ -670,11 +683,11 @@ def rule_conditional(chk, prog, tier):
                 it.call(fn, [Ptr(Obj('scope', 'heap'), ())]); condres[cn] = 'ok'
             except Terminal as t:
                 condres[cn] = 'error' if t.what == 'error' else 'terminal:' + t.what
-        return out, {n: {k: v for k, v in d.items() if k != 'type'} for n, _, d in ops}, sel, (ops[6][0], ops[8][0]), condres
+        return out, {n: {k: v for k, v in d.items() if k != 'type'} for n, _, d in ops}, sel, (ops[6][0], ops[8][0]), condres, outc
     runs = explore(prog, runner, {}, max_runs=2)
     if len(runs) != 1 or runs[0].outcome != 'return':
         raise AnalysisBroken('condexpr: %s' % [(x.outcome, x.detail) for x in runs])
-    out, descs, sel, selnames, condres = runs[0].value
+    out, descs, sel, selnames, condres, outc = runs[0].value
     QC = ev(prog, 'QUALCONST')
     PT = {'int': ('int', 0), 'char': ('char', 0), 'void': ('void', 0), 'cint': ('int', QC), 'func': ('other', 0), 'incomplete': ('other', 0)}
     for (ln, rn), got in out.items():
@@ -702,6 +715,9 @@ def rule_conditional(chk, prog, tier):
             r.instance(got == 'error', key, where, 'C11 6.5.15p3 allows no such operand pair: expected a diagnostic, got %s' % (got,))
         else:
             r.instance(not isinstance(got, str) and False or canon(got) == canon(want) if isinstance(want, str) else got == want, key, where, 'expected result type %s, got %s' % (want, got))
+    for (cv, ln, rn), got in outc.items():
+        same = got == out[(ln, rn)] or (isinstance(got, str) and isinstance(out[(ln, rn)], str) and canon(got) == canon(out[(ln, rn)]))       # an enumerated type and its compatible integer type are the same type for every observer
+        r.instance(same, 'cond-const-type:%d ? %s : %s' % (cv, ln, rn), 'expr.c:%s' % fn.get('line'), 'with a constant condition the result has type %s; with a non-constant condition %s' % (got, out[(ln, rn)]))
     for cn, cok in condres.items():
         want_ok = descs[cn]['k'] in ('arith', 'ptr')
         r.instance((cok == 'ok') == want_ok and cok in ('ok', 'error'), 'cond-first:%s' % cn, 'expr.c:%s' % fn.get('line'), 'the first operand %s; cproc: %s' % ('is scalar: valid' if want_ok else 'is not scalar: must be diagnosed', cok))
